@@ -33,11 +33,18 @@ def _run(cmd, text, wall):
 		f.write(text)
 		path = f.name
 	try:
-		p = subprocess.run(cmd + [path], capture_output=True, text=True, timeout=wall)
+		# the budget is CPU time of the solver process (RLIMIT_CPU), so that a verdict does not flip to `unknown` because other
+		# jobs keep the cores busy; the wall clock is only a net against a hung process
+		def _limit(cpu=int(wall)):
+			import resource
+			resource.setrlimit(resource.RLIMIT_CPU, (cpu, cpu + 5))
+		p = subprocess.run(cmd + [path], capture_output=True, text=True, timeout=wall * 8 + 60, preexec_fn=_limit)
 		out = (p.stdout or '').strip().split('\n')
 		first = out[0].strip() if out else ''
 		if first in ('sat', 'unsat', 'unknown'):
 			verdict = first
+		elif p.returncode < 0:
+			verdict = 'unknown'       # killed by the CPU limit
 		else:
 			verdict = 'error:' + (p.stdout + p.stderr)[:300].replace('\n', ' ')
 	except subprocess.TimeoutExpired:
@@ -100,7 +107,7 @@ def portfolio(text, expect_sat=False, reduced=False):
 
 def run_cvc5(text, wall=None):
 	txt = '(set-logic ALL)\n' + text
-	return _run([CVC5_BIN, '--lang=smt2', '--strings-exp', f'--tlimit={(wall or WALL) * 1000}'], txt, (wall or WALL) + 5)
+	return _run([CVC5_BIN, '--lang=smt2', '--strings-exp', f'--tlimit={(wall or WALL) * 8000}'], txt, (wall or WALL) + 5)
 
 
 class Result:
